@@ -48,7 +48,7 @@ def lexer_fst(dname, tok):
     f, fd, pat = lexer_action(dname, tok)
     if fd is None:
         return Fst.identity(ALPHABET), pat, None
-    T = codec.function_transducer(fd, ALPHABET, ['t.value'], result='path', result_path='t.value')
+    T = codec.function_transducer(fd, ALPHABET, ['t.value'], result='path', result_path='t.value', module=f.__module__)
     return T, pat, f
 
 
@@ -70,7 +70,7 @@ def parser_fst(dname, name, rule):
     K, fd = parser_action(dname, name, rule)
     if fd is None:
         raise FstError(f'no action {name} for rule {rule} in {dname}')
-    return codec.function_transducer(fd, ALPHABET, ['p[0]', f'p.{rule}'], result='return')
+    return codec.function_transducer(fd, ALPHABET, ['p[0]', f'p.{rule}'], result='return', module=K.__module__)
 
 
 def real_lex_value(dname, text):
